@@ -299,6 +299,64 @@ example :
   intro h
   exact absurd h.1 (by decide)
 
+/-! ### The second read entry point: `GetFromComposite` -/
+
+/-- **C13_composite_is_checked_get.**  A composite read is the checked `Get` followed by slicing:
+it makes exactly the CAS calls of `Get`; it hands out something only if `Get` returned the
+result (and the slicer succeeded); every error of `Get` is what the caller receives. -/
+theorem C13_composite_is_checked_get (cfg : Cfg) (ac : AcReply) (cas : Cas) (sliceErr : Option Code) :
+    (getFromComposite cfg ac cas sliceErr).1 = (getAR cfg ac cas).1 ∧
+    ((getFromComposite cfg ac cas sliceErr).2 = .result → (getAR cfg ac cas).2 = .result ∧ sliceErr = none) ∧
+    (∀ c, (getAR cfg ac cas).2 = .error c → (getFromComposite cfg ac cas sliceErr).2 = .error c) ∧
+    ((getAR cfg ac cas).2 = .result → sliceErr = none → (getFromComposite cfg ac cas sliceErr).2 = .result) := by
+  unfold getFromComposite
+  cases h : getAR cfg ac cas with
+  | mk tr out =>
+    cases out with
+    | result => cases sliceErr <;> simp
+    | error c => simp
+
+/-- Whatever is handed out through `GetFromComposite` was completely checked, exactly as for `Get`. -/
+theorem C13_composite_returned_implies_present (cfg : Cfg) (ac : AcReply) (cas : Cas) (sliceErr : Option Code)
+    (h : (getFromComposite cfg ac cas sliceErr).2 = .result) :
+    ∃ ar, ac = .ok ar ∧
+      Faithful cas (getFromComposite cfg ac cas sliceErr).1 ∧
+      (∀ d, some (PD.good d) ∈ topDigests ar → ReportedPresent (getFromComposite cfg ac cas sliceErr).1 d) ∧
+      (∀ od, od ∈ ar.dirs → ∃ t blob, od.tree = some (.good t) ∧
+        Call.get t blob ∈ (getFromComposite cfg ac cas sliceErr).1 ∧ Clean cfg blob ∧
+        ∀ dir, Ev.dir dir ∈ blob.evs → ∀ d, InDir od dir d →
+          ReportedPresent (getFromComposite cfg ac cas sliceErr).1 d) ∧
+      (∀ b a, Call.fm b a ∈ (getFromComposite cfg ac cas sliceErr).1 →
+        a = .ok [] ∧ b.length ≤ max cfg.batchSize 1 ∧ b.Nodup) := by
+  obtain ⟨htr, hres, _, _⟩ := C13_composite_is_checked_get cfg ac cas sliceErr
+  rw [htr]
+  exact C13_returned_implies_present cfg ac cas (hres h).1
+
+/-- A missing referenced object gives NOT_FOUND through `GetFromComposite` too (same hypotheses as
+`C13_missing_gives_not_found`), whatever the slicer would have done. -/
+theorem C13_composite_missing_gives_not_found (cfg : Cfg) (ar : AR) (cas : Cas) (content : Dg → List Dir)
+    (missing : Dg → Prop) (hh : Honest cfg cas content) (ht : Truthful cas missing) (hn : OnlyNF cfg cas)
+    (hsz : ar.size ≤ cfg.maxMsg) (d : Dg) (hd : Referenced content ar d) (hm : missing d) (sliceErr : Option Code) :
+    (getFromComposite cfg (.ok ar) cas sliceErr).2 = .error notFound :=
+  (C13_composite_is_checked_get cfg (.ok ar) cas sliceErr).2.2.1 _
+    (C13_missing_gives_not_found cfg ar cas content missing hh ht hn hsz d hd hm)
+
+/-- Bad input never yields anything through `GetFromComposite` either. -/
+theorem C13_composite_bad_input_never_result (cfg : Cfg) (ac : AcReply) (cas : Cas) (sliceErr : Option Code)
+    (hbad : BadInput cfg cas ac) : ∃ c, (getFromComposite cfg ac cas sliceErr).2 = .error c := by
+  obtain ⟨c, hc⟩ := C13_bad_input_never_result cfg ac cas hbad
+  exact ⟨c, (C13_composite_is_checked_get cfg ac cas sliceErr).2.2.1 c hc⟩
+
+/-- Non-vacuity: a complete result is handed to the slicer; with a file missing the composite read
+is NOT_FOUND after the same CAS calls as `Get`. -/
+example :
+    let ar : AR := ⟨100, [some (.good ⟨2, 10⟩), some (.good ⟨3, 9⟩)], [], none, none⟩
+    getFromComposite ⟨2, 1000, 500⟩ (.ok ar) (scriptCas [] [] []) none = ([.fm [⟨2, 10⟩, ⟨3, 9⟩] (.ok [])], .result) ∧
+    getFromComposite ⟨2, 1000, 500⟩ (.ok ar) (scriptCas [] [] []) (some 3) = ([.fm [⟨2, 10⟩, ⟨3, 9⟩] (.ok [])], .error 3) ∧
+    getFromComposite ⟨2, 1000, 500⟩ (.ok ar) (scriptCas [⟨3, 9⟩] [] []) none =
+      ([.fm [⟨2, 10⟩, ⟨3, 9⟩] (.ok [⟨3, 9⟩])], .error notFound) := by
+  decide
+
 /-! ### The scripted CAS of the driver satisfies the hypotheses used above -/
 
 theorem scriptCas_truthful (missing : List Dg) (blobs : List (Dg × Blob)) (faults : List (Nat × Code)) :
